@@ -16,5 +16,5 @@ git apply "$patch"
 trap 'git -C /repo checkout -- . ; echo "[reverted]"' EXIT
 for c in "${checks[@]}"; do
   echo "=== $c $tier with $(basename $(dirname $patch))"
-  /verif/check "$c" "$tier" 2>&1 | grep -E "VIOLATION|KNOWN-FINDING|signature:|detail:|history:|exit=|MACHINERY" | head -20
+  VERIF_NO_EVIDENCE=1 /verif/check "$c" "$tier" 2>&1 | grep -E "VIOLATION|KNOWN-FINDING|signature:|detail:|history:|exit=|MACHINERY" | head -20
 done
